@@ -375,3 +375,76 @@ package stats
 //@   requires wfSample(s) && (!isnil(s.Weights) ==> nonneg(s.Weights))
 //@   ensures [r8-sorted] len(s.Xs) > 0 && s.Sorted && isnil(s.Weights) ==> result == r8(s.Xs, 0.75) - r8(s.Xs, 0.25)
 //@   assigns nothing
+
+// ---------------------------------------------------------------------
+// UDist (C02, C01). The combinatorial meaning of the counts is carried by
+// opaque spec functions (DESIGN A5, M2): acnt(t, n1, twoU) is the number of
+// ways to allocate n1 of the ranked values (tie vector t) to the first sample
+// with 2U <= twoU; upmf(n1, n2, u) is the untied point mass at U = u.
+
+//@ spec acnt(t []int, n1 int, twoU int) float64
+//@ spec upmf(n1 int, n2 int, u int) float64
+//@ spec ucum(n1 int, n2 int, k int) float64 = k <= 0 ? 0 : ucum(n1, n2, k-1) + upmf(n1, n2, k-1)
+//@ spec tied(t []int) bool = exists k in 0..len(t) :: t[k] > 1
+
+//@ func UDist.hasTies
+//@   model real
+//@   ensures [def] result <==> tied(d.T)
+//@   loop 1 (t) invariant forall j in 0.._k :: d.T[j] <= 1
+//@   assigns nothing
+
+// makeUmemo and UDist.p: assumed here (their bodies use maps keyed by structs
+// and an in-place two-dimensional dynamic programme; see DESIGN C02 P2/P3).
+//@ assume func makeUmemo
+//@   model real
+//@   trusted tie recurrence of Klotz / Cheung-Klotz (not verified: maps keyed by structs)
+//@   requires len(t) >= 2
+//@   results A
+//@   ensures len(A) == len(t) + 1 && haskey(A[len(t)], ukey{n1, twoU}) && A[len(t)][ukey{n1, twoU}] == acnt(t, n1, twoU)
+//@   assigns nothing
+
+//@ assume func UDist.p
+//@   model real
+//@   trusted Mann-Whitney recurrence p_{n,m}(U) (not verified here)
+//@   requires U >= 0
+//@   ensures len(result) == U + 1 && fresh(result) && (forall u in 0..U+1 :: result[u] == upmf(d.N1, d.N2, u))
+//@   assigns nothing
+
+// mathx.Choose as seen from stats: the guard clauses are proved in mathx;
+// positivity inside the range (C(n,k) >= 1) is assumed (A5, M2).
+//@ assume func mathx.Choose
+//@   deterministic
+//@   trusted guard clauses proved in package mathx; C(n,k) >= 1 for 0 <= k <= n assumed
+//@   ensures ((k == 0 || k == n) ==> result == 1) && (!(k == 0 || k == n) && (k < 0 || n < k) ==> result == 0) && (0 <= k && k <= n ==> result >= 1)
+//@   assigns nothing
+
+//@ func UDist.CDF
+//@   deterministic
+//@   model real
+//@   requires d.N1 >= 1 && d.N2 >= 1 && (tied(d.T) ==> len(d.T) >= 2)
+//@   ensures [below]  U < 0 ==> result == 0
+//@   ensures [above]  U >= d.N1 * d.N2 ==> result == 1
+//@   ensures [tied]   0 <= U && U < d.N1 * d.N2 && tied(d.T) ==> result == acnt(d.T, d.N1, ifloor(2*U)) / mathx.Choose(d.N1 + d.N2, d.N1)
+//@   ensures [untied-lower] 0 <= U && U < d.N1 * d.N2 && !tied(d.T) && ifloor(U) < (d.N1*d.N2 + 1)/2 ==> result == ucum(d.N1, d.N2, ifloor(U) + 1)
+//@   ensures [untied-upper] 0 <= U && U < d.N1 * d.N2 && !tied(d.T) && ifloor(U) >= (d.N1*d.N2 + 1)/2 ==> result == 1 - ucum(d.N1, d.N2, d.N1*d.N2 - ifloor(U))
+//@   loop 1 (pdf) invariant p == ucum(d.N1, d.N2, _k)
+//@   assigns nothing
+
+//@ func UDist.PMF
+//@   model real
+//@   requires d.N1 >= 1 && d.N2 >= 1 && (tied(d.T) ==> len(d.T) >= 2)
+//@   ensures [outside] (U < 0 || U >= 0.5 + d.N1 * d.N2) ==> result == 0
+//@   ensures [tied]    0 <= U && U < 0.5 + d.N1 * d.N2 && tied(d.T) ==> result == (acnt(d.T, d.N1, ifloor(2*U)) - acnt(d.T, d.N1, ifloor(2*U) - 1)) / mathx.Choose(d.N1 + d.N2, d.N1)
+//@   ensures [untied]  0 <= U && U < 0.5 + d.N1 * d.N2 && !tied(d.T) ==> result == upmf(d.N1, d.N2, ifloor(U))
+//@   assigns nothing
+
+//@ func UDist.Step
+//@   model real
+//@   ensures [def] result == 0.5
+//@   assigns nothing
+
+//@ func UDist.Bounds
+//@   model real
+//@   results lo, hi
+//@   ensures [def] lo == 0 && hi == d.N1 * d.N2
+//@   assigns nothing
